@@ -130,7 +130,10 @@ func TestCachePruningKeepsOutcomes(t *testing.T) {
 			}
 			wg.Wait()
 			a, b, c := Recv(ch), Recv(ch), Recv(ch)
-			return func() []string { outcomes[string(rune('0'+a))+string(rune('0'+b))+string(rune('0'+c))+":"+itoa(x)] = true; return nil }
+			return func() []string {
+				outcomes[string(rune('0'+a))+string(rune('0'+b))+string(rune('0'+c))+":"+itoa(x)] = true
+				return nil
+			}
 		}}
 		e.Explore()
 		return outcomes, e.Executions
